@@ -17,7 +17,7 @@ THEOREMS = [_T + t for t in (
     "string_literal_wellquoted", "number_text_denotes", "number_text_denotes_plain", "pinned_number_to_str_wrong",
     "proposed_fix_number_text_denotes", "dispatch_as_modelled", "function_names_distinct", "parse_show",
     "parse_show_expr", "render_canon", "lex_renderPT", "lex_render", "read_render", "text_determines_expression",
-    "function_names_lex", "prec_as_library")]
+    "function_names_lex", "a1_references_nameSafe", "prec_as_library")]
 PARTIAL = {
     _T + "number_text_denotes":
         "restricted to the repr shapes the pinned number_to_str renders faithfully (sciOk); the full statement over all "
